@@ -37,6 +37,48 @@ int __real_nanosleep(const struct timespec *, struct timespec *);
 pthread_t __real_pthread_self(void);
 int __real_pthread_equal(pthread_t, pthread_t);
 
+/* ---- the baton. Under ThreadSanitizer it must be invisible to the race detector: a semaphore hand-over at every
+ * switch would order every pair of accesses and hide all races. A raw futex on a word touched only by
+ * uninstrumented code carries no happens-before edge; the edges TSan sees are the modelled mutexes (annotated
+ * below), thread create/join and the library's own atomics. */
+#ifdef VS_TSAN
+#    include <linux/futex.h>
+#    include <sys/syscall.h>
+void __tsan_acquire(void *addr);
+void __tsan_release(void *addr);
+typedef struct {
+    int v;
+} vs_baton_t;
+static void vs_baton_init(vs_baton_t *b) {
+    b->v = 0;
+}
+static void vs_baton_post(vs_baton_t *b) {
+    __atomic_store_n(&b->v, 1, __ATOMIC_SEQ_CST);
+    syscall(SYS_futex, &b->v, FUTEX_WAKE_PRIVATE, 1, NULL, NULL, 0);
+}
+static void vs_baton_wait(vs_baton_t *b) {
+    while (__atomic_exchange_n(&b->v, 0, __ATOMIC_SEQ_CST) == 0) {
+        syscall(SYS_futex, &b->v, FUTEX_WAIT_PRIVATE, 0, NULL, NULL, 0);
+    }
+}
+#    define VS_TSAN_ACQUIRE(a) __tsan_acquire((void *)(a))
+#    define VS_TSAN_RELEASE(a) __tsan_release((void *)(a))
+#else
+typedef sem_t vs_baton_t;
+static void vs_baton_init(vs_baton_t *b) {
+    sem_init(b, 0, 0);
+}
+static void vs_baton_post(vs_baton_t *b) {
+    sem_post(b);
+}
+static void vs_baton_wait(vs_baton_t *b) {
+    while (sem_wait(b) != 0) {
+    }
+}
+#    define VS_TSAN_ACQUIRE(a)
+#    define VS_TSAN_RELEASE(a)
+#endif
+
 enum { VOP_NONE, VOP_START, VOP_LOCK, VOP_TRYLOCK, VOP_UNLOCK, VOP_CWAIT, VOP_REACQ, VOP_SIGNAL, VOP_BROADCAST,
        VOP_CREATE, VOP_JOIN, VOP_ATOMIC, VOP_POINT, VOP_WOKEN, VOP_FINISH };
 static const char *vs_opname[] = {"none", "start", "lock", "trylock", "unlock", "cwait", "reacq", "signal", "broadcast",
@@ -59,7 +101,7 @@ struct vs_thread {
     struct vs_cond *c;
     bool timed;
     uint64_t deadline;
-    sem_t sem;
+    vs_baton_t sem;
     pthread_t real;
     void *(*fn)(void *);
     void *arg;
@@ -275,7 +317,11 @@ static struct vs_cond *vs_cond_of(pthread_cond_t *a) {
 static void vs_cond_remove(struct vs_cond *c, int tid) {
     for (int i = 0; i < c->nw; ++i) {
         if (c->waiters[i] == tid) {
-            memmove(&c->waiters[i], &c->waiters[i + 1], (size_t)(c->nw - i - 1) * sizeof(int));
+            /* no libc mem* calls on scheduler state: the sanitizers intercept them and would see the harness's
+             * own (baton-protected) bookkeeping as racing */
+            for (int k = i; k + 1 < c->nw; ++k) {
+                ((volatile int *)c->waiters)[k] = c->waiters[k + 1];
+            }
             c->nw--;
             return;
         }
@@ -456,10 +502,9 @@ static void vs_schedule(void) {
         break;
     }
     if (next != me) {
-        sem_post(&next->sem);
+        vs_baton_post(&next->sem);
         if (me->state != VST_EXITED) {
-            while (sem_wait(&me->sem) != 0) {
-            }
+            vs_baton_wait(&me->sem);
         }
     }
 }
@@ -521,6 +566,7 @@ int __wrap_pthread_mutex_lock(pthread_mutex_t *m) {
         return __real_pthread_mutex_lock(m);
     }
     vs_yield(VOP_LOCK, vs_mutex_of(m), NULL, 0);
+    VS_TSAN_ACQUIRE(m);
     return 0;
 }
 int __wrap_pthread_mutex_trylock(pthread_mutex_t *m) {
@@ -528,12 +574,16 @@ int __wrap_pthread_mutex_trylock(pthread_mutex_t *m) {
         return __real_pthread_mutex_trylock(m);
     }
     vs_yield(VOP_TRYLOCK, vs_mutex_of(m), NULL, 0);
+    if (vs_me->result == 0) {
+        VS_TSAN_ACQUIRE(m);
+    }
     return vs_me->result;
 }
 int __wrap_pthread_mutex_unlock(pthread_mutex_t *m) {
     if (!vs_active()) {
         return __real_pthread_mutex_unlock(m);
     }
+    VS_TSAN_RELEASE(m);
     vs_yield(VOP_UNLOCK, vs_mutex_of(m), NULL, 0);
     return 0;
 }
@@ -559,6 +609,7 @@ static int vs_cond_block(pthread_cond_t *c, pthread_mutex_t *m, bool timed, uint
     struct vs_mutex *vm = vs_mutex_of(m);
     struct vs_cond *vc = vs_cond_of(c);
     vs_yield(VOP_CWAIT, vm, vc, 0); /* schedule point before the atomic release-and-block */
+    VS_TSAN_RELEASE(m);
     if (vm->owner != me->id) {
         vs_anomalies++;
     }
@@ -577,6 +628,7 @@ static int vs_cond_block(pthread_cond_t *c, pthread_mutex_t *m, bool timed, uint
         vc->waiters[vc->nw++] = me->id;
     }
     vs_schedule();
+    VS_TSAN_ACQUIRE(m);
     return me->result;
 }
 int __wrap_pthread_cond_wait(pthread_cond_t *c, pthread_mutex_t *m) {
@@ -642,8 +694,7 @@ int __wrap_pthread_equal(pthread_t a, pthread_t b) {
 static void *vs_trampoline(void *arg) {
     struct vs_thread *t = arg;
     vs_me = t;
-    while (sem_wait(&t->sem) != 0) {
-    }
+    vs_baton_wait(&t->sem);
     t->fn(t->arg);
     t->state = VST_EXITED;
     t->op = VOP_NONE;
@@ -659,13 +710,21 @@ int __wrap_pthread_create(pthread_t *out, const pthread_attr_t *attr, void *(*fn
         return EAGAIN;
     }
     struct vs_thread *t = &vs_T[vs_nthreads];
-    memset(t, 0, sizeof(*t));
+    t->op = VOP_NONE;
+    t->target = 0;
+    t->result = 0;
+    t->m = NULL;
+    t->c = NULL;
+    t->timed = false;
+    t->deadline = 0;
+    t->joined = false;
+    t->detached = false;
     t->id = vs_nthreads;
     t->fn = fn;
     t->arg = arg;
     t->state = VST_READY;
     t->op = VOP_START;
-    sem_init(&t->sem, 0, 0);
+    vs_baton_init(&t->sem);
     vs_nthreads++;
     int rc = __real_pthread_create(&t->real, attr, vs_trampoline, t);
     if (rc) {
@@ -769,7 +828,7 @@ static void vs_run_child(vs_scenario_fn scenario, char **lines, int nlines) {
     vs_nthreads = 1;
     vs_T[0].id = 0;
     vs_T[0].state = VST_READY;
-    sem_init(&vs_T[0].sem, 0, 0);
+    vs_baton_init(&vs_T[0].sem);
     vs_me = &vs_T[0];
     vs_nm = vs_nc = 0;
     vs_nsteps = 0;
